@@ -108,6 +108,24 @@ FDiv(t, a, b) == IF b[2] = 0 THEN Err("DIV0")
                          ELSE LET sh == ShiftL(ma, 20)       \* quotients like 1/8 * odd: try with 20 more bits
                               IN IF sh[1] /\ sh[2] % mb = 0 THEN MkF(t, sh[2] \div mb, a[3] - 20 - b[3]) ELSE OOM
 
+\* a ^ b: like division the result is floating point (SINGLE unless an operand is DOUBLE).  In the
+\* model: integral exponents of small magnitude by repeated exact multiplication; a negative
+\* exponent only when the power is a power of two (its reciprocal is then dyadic); 0 to a
+\* negative power divides by zero; everything else (roots, large exponents) is out of model.
+RECURSIVE PowN(_, _, _)
+PowN(t, a, k) == IF k = 0 THEN <<t, 1, 0>>
+                 ELSE LET q == PowN(t, a, k - 1) IN IF q[1] \in {"ERR", "OOM"} THEN q ELSE FMul(t, q, a)
+FPow(t, a, b) ==
+    IF b[2] # 0 /\ b[3] < 0 THEN OOM                       \* fractional exponent
+    ELSE LET sh == ShiftL(b[2], b[3]) IN
+         IF ~sh[1] \/ sh[2] > 8 \/ sh[2] < -8 THEN OOM
+         ELSE LET n == sh[2] IN
+              IF n >= 0 THEN PowN(t, a, n)
+              ELSE IF a[2] = 0 THEN Err("DIV0")
+              ELSE LET q == PowN(t, a, 0 - n) IN
+                   IF q[1] \in {"ERR", "OOM"} THEN q
+                   ELSE IF q[2] = 1 \/ q[2] = -1 THEN MkF(t, q[2], 0 - q[3]) ELSE OOM
+
 \* sign of a - b for floats: -1, 0, 1 (2 = out of model)
 FCmp(a, b) ==
     IF Sgn(a[2]) # Sgn(b[2]) THEN (IF Sgn(a[2]) < Sgn(b[2]) THEN -1 ELSE 1)
@@ -195,7 +213,7 @@ IsLogic(op) == op \in {"and", "or", "xor", "eqv", "imp"}
 BinType(op, ta, tb) ==
     IF IsCmp(op) THEN "I"
     ELSE IF IsLogic(op) \/ op \in {"mod", "idiv"} THEN (IF ta = "I" /\ tb = "I" THEN "I" ELSE "L")
-    ELSE IF op = "div" THEN (IF Wider(ta, tb) = "D" THEN "D" ELSE "S")
+    ELSE IF op \in {"div", "pow"} THEN (IF Wider(ta, tb) = "D" THEN "D" ELSE "S")
     ELSE Wider(ta, tb)
 
 BinOp(op, a, b) ==
@@ -224,6 +242,7 @@ BinOp(op, a, b) ==
            IF Bad(fa) THEN fa ELSE IF Bad(fb) THEN fb
            ELSE CASE op = "add" -> FAdd(t, fa, fb) [] op = "sub" -> FSub(t, fa, fb)
                   [] op = "mul" -> FMul(t, fa, fb) [] op = "div" -> FDiv(t, fa, fb)
+                  [] op = "pow" -> FPow(t, fa, fb)
 
 UnOp(op, a) ==
     IF Bad(a) THEN a
